@@ -482,14 +482,61 @@ Qed.
 
 (* the property holds of the model on every well-formed input outside the
    class of the known comparison finding *)
+(* --- comparison as a function of the contents: antisymmetry --- *)
+(* byte order (faithful model of the chunk differ), outside the finding's class *)
+Theorem compare_adaptive_antisym (K F : N) (content : bytes -> bytes) (cl cr : bytes) (l r : aval) :
+  0 < K -> repr_of content cl l -> repr_of content cr r ->
+  cmp_safe K F cl cr l r = true -> cmp_safe K F cr cl r l = true ->
+  compare_adaptive K F content r l = CompOpp (compare_adaptive K F content l r).
+Proof.
+  intros HK Rl Rr S1 S2.
+  rewrite (compare_adaptive_correct K F content cl cr l r) by assumption.
+  rewrite (compare_adaptive_correct K F content cr cl r l) by assumption.
+  apply bytes_compare_antisym.
+Qed.
+
+(* collated text and JSON: the comparison of the contents (collation weights,
+   JSON ordering) is an outside oracle [ord]; a comparison that is a function
+   of the contents only inherits its antisymmetry and does not depend on the
+   representation of either side *)
+Section ContentOrder.
+Variable content_of : aval -> bytes.           (* getUnderlyingBytes *)
+Variable ord : bytes -> bytes -> Z.            (* the collation's / JSON's comparison of whole values *)
+Hypothesis ord_antisym : forall a b, ord b a = (- ord a b)%Z.
+Definition content_compare (l r : aval) : Z := ord (content_of l) (content_of r).
+
+Theorem content_compare_antisym l r : content_compare r l = (- content_compare l r)%Z.
+Proof. apply ord_antisym. Qed.
+
+Theorem content_compare_repr_indep l l' r r' :
+  content_of l = content_of l' -> content_of r = content_of r' -> content_compare l r = content_compare l' r'.
+Proof. unfold content_compare. intros -> ->. reflexivity. Qed.
+End ContentOrder.
+
+Lemma all_are_cmp_row z il ir : all_are z (cmp_row z il ir) = true.
+Proof. unfold all_are, cmp_row. destruct il, ir; cbn [andb forallb]; rewrite !Z.eqb_refl; reflexivity. Qed.
+
+Theorem cmp_oracle_on_model (c : cmp_in) :
+  (c_ref_yx c =? - c_ref_xy c)%Z = true -> cmp_oracle c (cmp_model c) = true.
+Proof.
+  intros H. unfold cmp_oracle, cmp_model. cbn [oc_xy oc_yx oc_tuple_xy oc_tuple_yx oc_sql_distinct oc_sql_first].
+  rewrite H, !all_are_cmp_row, !Z.eqb_refl. cbn [andb length cmp_row Nat.eqb].
+  destruct (c_sql c); [|reflexivity]. cbn [negb orb]. rewrite !N.eqb_refl. reflexivity.
+Qed.
+
 Definition wf_input (i : input) : bool :=
-  match i with IApi a => api_wf a && api_safe a | ISql _ => true end.
+  match i with
+  | IApi a => api_wf a && api_safe a
+  | ISql _ => true
+  | ICmp c => (c_ref_yx c =? - c_ref_xy c)%Z
+  end.
 
 Theorem oracle_on_model (i : input) : wf_input i = true -> oracle i (model_obs i) = true.
 Proof.
-  destruct i as [a | s]; cbn [wf_input oracle model_obs]; intros H.
+  destruct i as [a | s | c]; cbn [wf_input oracle model_obs]; intros H.
   - apply andb_true_iff in H as [W S]. apply api_oracle_on_model; assumption.
   - apply sql_oracle_on_model.
+  - apply cmp_oracle_on_model. exact H.
 Qed.
 
 Example wf_input_example :
